@@ -8,7 +8,10 @@ EXTENDS Sched_MC, Json
 VARIABLE h
 gvars == <<vars, h>>
 GenInit == Init /\ h = <<>>
+(* a dispatch tick that releases nothing in the model is still an input for the code under test *)
+IdleTick == (\A a \in Alg : Release[a] = {}) /\ UNCHANGED vars /\ h' = Append(h, [ev |-> "Tick"])
 GenNext ==
+    \/ IdleTick
     \/ \E S \in RunChoices, T \in SUBSET Tg :
           Run(S, T) /\ h' = Append(h, [ev |-> "Run", S |-> S, T |-> T])
     \/ Tick /\ h' = Append(h, [ev |-> "Tick"])
@@ -18,7 +21,8 @@ GenNext ==
 GenSpec == GenInit /\ [][GenNext]_gvars
 (* focus variant: single-algorithm requests for {T1} or {T1, T2} only -- keeps 3-request histories tractable *)
 GenNextFocus ==
-    \/ \E a \in Alg, T \in {{"T1"}, {"T1", "T2"}} :
+    \/ IdleTick
+    \/ \E a \in Alg, T \in {{"T1"}} \cup (IF "T2" \in Targets THEN {{"T1", "T2"}} ELSE {}) :
           Run({a}, T) /\ h' = Append(h, [ev |-> "Run", S |-> {a}, T |-> T])
     \/ Tick /\ h' = Append(h, [ev |-> "Tick"])
     \/ \E a \in Alg, t \in Tg, out \in Outcomes : \E new \in SUBSET prog.vals[a], old \in BOOLEAN :
@@ -31,6 +35,8 @@ Emit == PrintT(<<"SCHED", ToJson([prog |-> ProgJson, h |-> h'])>>)
 (* simulation: print every prefix; the driver keeps the maximal ones *)
 (* sampled export of a large instance: every transition is printed with probability 1/SampleRate *)
 EmitAt(k) == (RandomElement(1..k) = 1) => PrintT(<<"SCHED", ToJson([prog |-> ProgJson, h |-> h'])>>)
+EmitS20 == EmitAt(20)
+EmitS5 == EmitAt(5)
 EmitS100 == EmitAt(100)
 EmitS250 == EmitAt(250)
 EmitS500 == EmitAt(500)
